@@ -1,4 +1,4 @@
-(* C19 — wallet sessions (pkg/wallet/session.go, contents.go, wallet.go, kmsclient.go): executable model.
+(* C19 — wallet sessions (pkg/wallet/session.go, contents.go, wallet.go, kmsclient.go, jwt.go): executable model.
    No proofs here: this file must keep running when a proof breaks.
 
    State = what the process and the shared storage provider hold:
@@ -6,11 +6,17 @@
        successful lookup (walletSessionManager.gstore, getSession),
      - the process-global store manager  profile -> expiry (NOT re-armed; walletStoreManager.gstore),
      - the wallet instances created by wallet.New, each with its store handle (storeLocked / open closure),
-     - the content rows of every profile and the KMS rows (one shared "kmsdb", each row wrapped by the master
-       key of the profile whose key manager wrote it).
-   One operation = one exported call; the token check is modelled AS THE CODE PERFORMS IT:
-     content operations:  [Fixed: Wallet.checkAuth]  ->  store handle locked?  ->  getSession(token) exists?
-     key creation:        [Fixed: Wallet.checkAuth]  ->  getSession(token)  ->  the key manager OF THE TOKEN'S SESSION.
+     - the content rows of every profile (content id = 100 * content type + number: the code's key is
+       "<type>_<id>"), the collection mappings, and the KMS rows (ONE shared "kmsdb" for all profiles, each row
+       wrapped by the master key of the profile whose key manager wrote it; created keys are numbered, imported
+       keys carry the explicit id they were imported under).
+   One operation = one exported call; the token check is modelled AS THE CODE PERFORMS IT, per method:
+     [Fixed: Wallet.checkAuth — a live session of the token that belongs to another user => ErrInvalidAuthToken]
+     [Fixed: Wallet.checkSession for Verify / Derive / ResolveCredentialManifest — no live session => ErrInvalidAuthToken]
+     store gate (cs.open):   handle locked => ErrWalletLocked ; no live session => ErrInvalidAuthToken
+     soft store gate (walletVDR.Resolve of a DID): handle locked => ErrWalletLocked ; no live session => falls back
+                             to the VDR and goes on
+     key manager gate:       no live session => ErrInvalidAuthToken (CreateKeyPair) / ErrWalletLocked (signers)
    Time is in abstract units (the harness uses 1 unit = 60 ms); an entry with expiry e is dead when e < now
    (gcache: expiration.Before(now)). *)
 From Coq Require Import List NArith Bool.
@@ -22,7 +28,7 @@ Definition tok := N.
 Definition cid := N.
 Definition time := N.
 
-(* the code as found (AsIs) and after the fix: commit (Fixed) *)
+(* the code as found (AsIs) and after the fix: commits (Fixed) *)
 Inductive variant := AsIs | Fixed.
 
 Record session := { s_tok : tok; s_user : user; s_ttl : N; s_exp : time }.
@@ -34,15 +40,30 @@ Record wstate := {
   stores : list (user * time);
   insts : list (user * bool);          (* (user, store handle open?) in creation order *)
   contents : list (user * (cid * N));  (* (profile, (content id, value)) *)
-  keys : list (N * user);              (* (key number, profile whose master key wraps it) *)
+  maps : list (user * (cid * cid));    (* (profile, (content id, collection id)): collection mapping rows *)
+  keys : list (N * user);              (* (key id, profile whose master key wraps it) *)
   next_tok : tok;
   next_key : N }.
 
 Definition init : wstate :=
-  {| now := 0; profiles := []; sessions := []; stores := []; insts := []; contents := []; keys := [];
+  {| now := 0; profiles := []; sessions := []; stores := []; insts := []; contents := []; maps := []; keys := [];
      next_tok := 0; next_key := 0 |}.
 
-Inductive okind := KAdd (c : cid) (v : N) | KGet (c : cid) | KGetAll | KRemove (c : cid) | KCreateKey.
+(* the token-taking methods that neither add nor list contents nor create keys *)
+Inductive meth :=
+| MQuery | MIssue | MProveStored | MProveRaw | MVerifyStored | MVerifyRaw
+| MDeriveStored | MDeriveRaw | MResolveStored | MResolveRaw | MSignJWT.
+
+Inductive okind :=
+| KAdd (c : cid) (v : N)             (* Add, any content type but Key *)
+| KGet (c : cid)
+| KGetAll (ct : N)                   (* GetAll of one content type *)
+| KRemove (c : cid)
+| KCreateKey
+| KImportKey (kn : N)                (* Add(Key, ...): import under the explicit key id kn *)
+| KAddIn (c : cid) (v : N) (col : cid)   (* Add with AddByCollection *)
+| KGetAllIn (ct : N) (col : cid)     (* GetAll with FilterByCollection *)
+| KUse (m : meth) (c : cid) (kn : N). (* method m on stored credential c / with signing key kn *)
 
 Inductive wop :=
 | WCreate (u : user)                         (* wallet.CreateProfile *)
@@ -112,14 +133,66 @@ Fixpoint insert_row (x : cid * N) (l : list (cid * N)) : list (cid * N) :=
   end.
 Definition sort_rows (l : list (cid * N)) : list (cid * N) := fold_right insert_row [] l.
 
+Definition ctype (c : cid) : N := c / 100.
+Definition of_type (ct : N) (l : list (cid * N)) : list (cid * N) := filter (fun r => ctype (fst r) =? ct) l.
+
+(* content ids of profile u mapped to collection col *)
+Definition mapped (ms : list (user * (cid * cid))) (u : user) (col : cid) : list cid :=
+  map (fun m => fst (snd m)) (filter (fun m => (fst m =? u) && (snd (snd m) =? col)) ms).
+Definition in_cids (l : list cid) (c : cid) : bool := existsb (N.eqb c) l.
+Definition unmap (ms : list (user * (cid * cid))) (u : user) (c : cid) : list (user * (cid * cid)) :=
+  filter (fun m => negb ((fst m =? u) && (fst (snd m) =? c))) ms.
+
+Definition has_key (ks : list (N * user)) (kn : N) (u : user) : bool :=
+  existsb (fun p => (fst p =? kn) && (snd p =? u)) ks.
+Definition key_id_taken (ks : list (N * user)) (kn : N) : bool := existsb (fun p => fst p =? kn) ks.
+
+(* ---- record updates ---- *)
 Definition upd_sessions (st : wstate) (ss : list session) : wstate :=
   {| now := now st; profiles := profiles st; sessions := ss; stores := stores st; insts := insts st;
-     contents := contents st; keys := keys st; next_tok := next_tok st; next_key := next_key st |}.
+     contents := contents st; maps := maps st; keys := keys st; next_tok := next_tok st; next_key := next_key st |}.
 Definition upd_contents (st : wstate) (cs : list (user * (cid * N))) : wstate :=
   {| now := now st; profiles := profiles st; sessions := sessions st; stores := stores st; insts := insts st;
-     contents := cs; keys := keys st; next_tok := next_tok st; next_key := next_key st |}.
+     contents := cs; maps := maps st; keys := keys st; next_tok := next_tok st; next_key := next_key st |}.
+Definition upd_maps (st : wstate) (ms : list (user * (cid * cid))) : wstate :=
+  {| now := now st; profiles := profiles st; sessions := sessions st; stores := stores st; insts := insts st;
+     contents := contents st; maps := ms; keys := keys st; next_tok := next_tok st; next_key := next_key st |}.
+Definition upd_keys (st : wstate) (ks : list (N * user)) (nk : N) : wstate :=
+  {| now := now st; profiles := profiles st; sessions := sessions st; stores := stores st; insts := insts st;
+     contents := contents st; maps := maps st; keys := ks; next_tok := next_tok st; next_key := nk |}.
+Definition upd_open (st : wstate) (ss : list session) (sts : list (user * time)) (is : list (user * bool)) (nt : tok) : wstate :=
+  {| now := now st; profiles := profiles st; sessions := ss; stores := sts; insts := is;
+     contents := contents st; maps := maps st; keys := keys st; next_tok := nt; next_key := next_key st |}.
+Definition upd_profiles (st : wstate) (ps : list user) : wstate :=
+  {| now := now st; profiles := ps; sessions := sessions st; stores := stores st; insts := insts st;
+     contents := contents st; maps := maps st; keys := keys st; next_tok := next_tok st; next_key := next_key st |}.
+Definition upd_now (st : wstate) (t : time) : wstate :=
+  {| now := t; profiles := profiles st; sessions := sessions st; stores := stores st; insts := insts st;
+     contents := contents st; maps := maps st; keys := keys st; next_tok := next_tok st; next_key := next_key st |}.
 
-(* a content operation on the store captured by the handle of an instance of profile u *)
+(* ---- how each method passes the gates ---- *)
+Inductive storeuse := SNone | SSoft | SHard.
+
+(* Wallet.checkSession up front (repaired code only) *)
+Definition pre_session (m : meth) : bool :=
+  match m with
+  | MVerifyStored | MVerifyRaw | MDeriveStored | MDeriveRaw | MResolveStored | MResolveRaw => true
+  | _ => false
+  end.
+(* SHard: reads contents through cs.open; SSoft: only resolves a DID through the content-based VDR *)
+Definition store_use (m : meth) : storeuse :=
+  match m with
+  | MQuery | MProveStored | MVerifyStored | MDeriveStored | MResolveStored => SHard
+  | MIssue | MProveRaw | MVerifyRaw | MDeriveRaw => SSoft
+  | MResolveRaw | MSignJWT => SNone
+  end.
+(* signs with the key manager of the token's session; a missing session is reported as ErrWalletLocked *)
+Definition uses_km (m : meth) : bool :=
+  match m with MIssue | MProveStored | MProveRaw | MSignJWT => true | _ => false end.
+Definition needs_cred (m : meth) : bool :=
+  match m with MProveStored | MVerifyStored | MDeriveStored | MResolveStored => true | _ => false end.
+
+(* the data-level part of an admitted content operation on the store of profile u *)
 Definition content_op (st : wstate) (u : user) (k : okind) : wstate * wout :=
   match k with
   | KAdd c v =>
@@ -132,36 +205,53 @@ Definition content_op (st : wstate) (u : user) (k : okind) : wstate * wout :=
       | Some v => (st, RVal v)
       | None => (st, RNotFound)
       end
-  | KGetAll => (st, RAll (sort_rows (rows_of (contents st) u)))
+  | KGetAll ct => (st, RAll (sort_rows (of_type ct (rows_of (contents st) u))))
   | KRemove c =>
-      (upd_contents st (filter (fun r => negb ((fst r =? u) && (fst (snd r) =? c))) (contents st)), RDone)
-  | KCreateKey => (st, RErr)
+      (upd_maps (upd_contents st (filter (fun r => negb ((fst r =? u) && (fst (snd r) =? c))) (contents st)))
+                (unmap (maps st) u c), RDone)
+  | KAddIn c v col =>
+      (* mapCollection: the collection must exist; the mapping row is written BEFORE the content is saved *)
+      match row_get (rows_of (contents st) u) col with
+      | None => (st, RNotFound)
+      | Some _ =>
+          let st1 := upd_maps st ((u, (c, col)) :: unmap (maps st) u c) in
+          match row_get (rows_of (contents st) u) c with
+          | Some _ => (st1, RExists)
+          | None => (upd_contents st1 ((u, (c, v)) :: contents st), RDone)
+          end
+      end
+  | KGetAllIn ct col =>
+      let ids := mapped (maps st) u col in
+      let rows := filter (fun r => in_cids ids (fst r)) (of_type ct (rows_of (contents st) u)) in
+      (* a mapping whose content is gone makes the listing fail *)
+      if forallb (fun c => negb (ctype c =? ct) || match row_get (rows_of (contents st) u) c with Some _ => true | None => false end) ids
+      then (st, RAll (sort_rows rows)) else (st, RNotFound)
+  | _ => (st, RErr)
   end.
+
+(* the data-level part of an admitted KUse: s = session found (None possible only on soft / no-gate paths) *)
+Definition use_op (st : wstate) (u : user) (m : meth) (c : cid) (kn : N) (su : option user) : wout :=
+  if needs_cred m && match row_get (rows_of (contents st) u) c with Some _ => false | None => true end then RNotFound
+  else if uses_km m && negb (match su with Some x => has_key (keys st) kn x | None => false end) then RNotFound
+  else match m with
+       | MQuery => match of_type 2 (rows_of (contents st) u) with [] => RNotFound | _ => RDone end
+       | _ => RDone
+       end.
 
 Definition step (v : variant) (st : wstate) (o : wop) : wstate * wout :=
   match o with
   | WCreate u =>
       if existsb (N.eqb u) (profiles st) then (st, RErr)
-      else ({| now := now st; profiles := u :: profiles st; sessions := sessions st; stores := stores st;
-               insts := insts st; contents := contents st; keys := keys st;
-               next_tok := next_tok st; next_key := next_key st |}, RDone)
+      else (upd_profiles st (u :: profiles st), RDone)
   | WNew u =>
       if negb (existsb (N.eqb u) (profiles st)) then (st, RErr) else
       (* newContentStore: storeManager().get(profile.ID); gcache.Get drops an expired entry *)
       match store_get (stores st) u with
-      | None =>
-          ({| now := now st; profiles := profiles st; sessions := sessions st; stores := stores st;
-              insts := insts st ++ [(u, false)]; contents := contents st; keys := keys st;
-              next_tok := next_tok st; next_key := next_key st |}, RDone)
+      | None => (upd_open st (sessions st) (stores st) (insts st ++ [(u, false)]) (next_tok st), RDone)
       | Some e =>
-          if e <? now st then
-            ({| now := now st; profiles := profiles st; sessions := sessions st; stores := store_del (stores st) u;
-                insts := insts st ++ [(u, false)]; contents := contents st; keys := keys st;
-                next_tok := next_tok st; next_key := next_key st |}, RDone)
-          else
-            ({| now := now st; profiles := profiles st; sessions := sessions st; stores := stores st;
-                insts := insts st ++ [(u, true)]; contents := contents st; keys := keys st;
-                next_tok := next_tok st; next_key := next_key st |}, RDone)
+          if e <? now st
+          then (upd_open st (sessions st) (store_del (stores st) u) (insts st ++ [(u, false)]) (next_tok st), RDone)
+          else (upd_open st (sessions st) (stores st) (insts st ++ [(u, true)]) (next_tok st), RDone)
       end
   | WOpen i pass ttl0 =>
       match nth_error (insts st) i with
@@ -172,11 +262,10 @@ Definition step (v : variant) (st : wstate) (o : wop) : wstate * wout :=
           else
             let ttl := if ttl0 =? 0 then default_ttl else ttl0 in
             let s := {| s_tok := next_tok st; s_user := u; s_ttl := ttl; s_exp := now st + ttl |} in
-            ({| now := now st; profiles := profiles st; sessions := s :: sessions st;
-                stores := (u, now st + ttl) :: store_del (stores st) u;   (* storeManager().persist *)
-                insts := set_handle (insts st) i true;                    (* updateStoreHandles *)
-                contents := contents st; keys := keys st;
-                next_tok := next_tok st + 1; next_key := next_key st |}, RTok (next_tok st))
+            (upd_open st (s :: sessions st)
+                      ((u, now st + ttl) :: store_del (stores st) u)    (* storeManager().persist *)
+                      (set_handle (insts st) i true)                    (* updateStoreHandles *)
+                      (next_tok st + 1), RTok (next_tok st))
       end
   | WClose i =>
       match nth_error (insts st) i with
@@ -184,39 +273,55 @@ Definition step (v : variant) (st : wstate) (o : wop) : wstate * wout :=
       | Some (u, _) =>
           (* closeSession(user) && contents.Close(): the right operand runs only when a session was removed *)
           if user_live (sessions st) (now st) u then
-            ({| now := now st; profiles := profiles st; sessions := drop_user (sessions st) (now st) u;
-                stores := store_del (stores st) u; insts := set_handle (insts st) i false;
-                contents := contents st; keys := keys st;
-                next_tok := next_tok st; next_key := next_key st |},
+            (upd_open st (drop_user (sessions st) (now st) u) (store_del (stores st) u)
+                      (set_handle (insts st) i false) (next_tok st),
              RBool (match store_get (stores st) u with Some _ => true | None => false end))
           else (st, RBool false)
       end
-  | WTick dt =>
-      ({| now := now st + dt; profiles := profiles st; sessions := sessions st; stores := stores st;
-          insts := insts st; contents := contents st; keys := keys st;
-          next_tok := next_tok st; next_key := next_key st |}, RDone)
+  | WTick dt => (upd_now st (now st + dt), RDone)
   | WOp i t k =>
       match nth_error (insts st) i with
       | None => (st, RErr)
       | Some (u, hopen) =>
           if match v with Fixed => foreign (sessions st) (now st) t u | AsIs => false end
           then (st, RBadToken) else
+          let fs := find_session (sessions st) (now st) t in
+          let st1 := upd_sessions st (refresh (sessions st) (now st) t) in   (* state after a successful lookup *)
           match k with
           | KCreateKey =>
               (* CreateKeyPair: sessionManager().getSession(token).KeyManager — no store handle involved *)
-              match find_session (sessions st) (now st) t with
+              match fs with
               | None => (st, RBadToken)
-              | Some s =>
-                  ({| now := now st; profiles := profiles st; sessions := refresh (sessions st) (now st) t;
-                      stores := stores st; insts := insts st; contents := contents st;
-                      keys := (next_key st, s_user s) :: keys st;
-                      next_tok := next_tok st; next_key := next_key st + 1 |}, RKey (next_key st))
+              | Some s => (upd_keys st1 ((next_key st, s_user s) :: keys st) (next_key st + 1), RKey (next_key st))
+              end
+          | KImportKey kn =>
+              (* Add(Key): importKeyBase58/JWK -> getSession -> ImportPrivateKey(WithKeyID); a missing session is
+                 reported as ErrWalletLocked; the shared key store refuses an id that is already there *)
+              match fs with
+              | None => (st, RLocked)
+              | Some s => if key_id_taken (keys st) kn then (st1, RExists)
+                          else (upd_keys st1 ((kn, s_user s) :: keys st) (next_key st), RDone)
+              end
+          | KUse m c kn =>
+              if match v with Fixed => pre_session m | AsIs => false end && match fs with None => true | Some _ => false end
+              then (st, RBadToken) else
+              match store_use m, hopen, fs with
+              | SHard, false, _ | SSoft, false, _ => (st, RLocked)
+              | SHard, true, None => (st, RBadToken)
+              | _, _, _ =>
+                  if uses_km m && match fs with None => true | Some _ => false end then (st, RLocked) else
+                  (* the session is re-armed where the method really looks it up: cs.open or the signer *)
+                  (match fs with
+                   | Some _ => if match store_use m with SNone => false | _ => true end || uses_km m then st1 else st
+                   | None => st
+                   end,
+                   use_op st u m c kn (match fs with Some s => Some (s_user s) | None => None end))
               end
           | _ =>
               if negb hopen then (st, RLocked) else                  (* storeLocked handle *)
-              match find_session (sessions st) (now st) t with       (* cs.open(auth) *)
+              match fs with                                          (* cs.open(auth) *)
               | None => (st, RBadToken)
-              | Some _ => content_op (upd_sessions st (refresh (sessions st) (now st) t)) u k
+              | Some _ => content_op st1 u k
               end
           end
       end
@@ -230,7 +335,7 @@ Fixpoint run (v : variant) (st : wstate) (ops : list wop) : wstate * list wout :
 
 (* ---- what the property talks about ---- *)
 
-(* the call was let in: it reached the store / the key manager *)
+(* the call was let in: it reached the store / the key manager / the method body *)
 Definition admitted (r : wout) : bool :=
   match r with RLocked | RBadToken | RErr => false | _ => true end.
 
@@ -241,7 +346,7 @@ Definition inst_user (st : wstate) (i : nat) : option user :=
 Definition live_own (st : wstate) (t : tok) (u : user) : bool :=
   existsb (fun s => (s_tok s =? t) && live (now st) s && (s_user s =? u)) (sessions st).
 
-(* boolean statement used by the refutation of the as-is code: every admitted token operation of the history
+(* boolean statement used by the refutations of the as-is code: every admitted token operation of the history
    presented a live token of the instance's own profile *)
 Fixpoint all_admitted_own (v : variant) (st : wstate) (ops : list wop) : bool :=
   match ops with
@@ -270,27 +375,27 @@ Fixpoint grants_run (v : variant) (st : wstate) (ops : list wop) : list (tok * u
       end ++ grants_run v s1 r
   end.
 
-(* content rows written along a run: (profile of the instance used, (id, value)) for every admitted Add *)
+(* content rows written along a run: (profile of the instance used, (id, value)) for every successful Add *)
 Fixpoint adds_run (v : variant) (st : wstate) (ops : list wop) : list (user * (cid * N)) :=
   match ops with
   | [] => []
   | o :: r =>
       let '(s1, x) := step v st o in
       match o, x with
-      | WOp i _ (KAdd c n), RDone =>
+      | WOp i _ (KAdd c n), RDone | WOp i _ (KAddIn c n _), RDone =>
           match inst_user st i with Some u => [(u, (c, n))] | None => [] end
       | _, _ => []
       end ++ adds_run v s1 r
   end.
 
-(* keys created along a run: (key number, profile of the instance through which CreateKeyPair was called) *)
+(* keys created or imported along a run: (key id, profile of the instance through which it was done) *)
 Fixpoint keyops_run (v : variant) (st : wstate) (ops : list wop) : list (N * user) :=
   match ops with
   | [] => []
   | o :: r =>
       let '(s1, x) := step v st o in
       match o, x with
-      | WOp i _ KCreateKey, RKey k =>
+      | WOp i _ KCreateKey, RKey k | WOp i _ (KImportKey k), RDone =>
           match inst_user st i with Some u => [(k, u)] | None => [] end
       | _, _ => []
       end ++ keyops_run v s1 r
@@ -302,3 +407,6 @@ Definition pair_in (l : list (N * N)) (a b : N) : bool := existsb (fun p => (fst
 Definition keys_own (v : variant) (ops : list wop) : bool :=
   let st := fst (run v init ops) in
   forallb (fun p => pair_in (keyops_run v init ops) (fst p) (snd p)) (keys st).
+
+(* the outcome of an import through profile u, with the key rows of all other profiles taken away *)
+Definition keys_of (ks : list (N * user)) (u : user) : list (N * user) := filter (fun p => snd p =? u) ks.
